@@ -33,7 +33,7 @@ pub fn defs() -> Vec<PropDef> {
         run: run_c19,
         replay: replay_c19,
         post: |_, g, _| {
-            for k in ["silence-sweep", "histories", "histories-fresh-process", "long-history", "loom-pairs", "free-running"] {
+            for k in ["silence-sweep", "histories", "histories-fresh-process", "long-history", "loom-pairs", "free-running", "render-history"] {
                 if !g.contains_key(k) {
                     return Err(format!("C19 guard {k} never hit"));
                 }
@@ -930,6 +930,11 @@ fn run_c19(ctx: &mut Ctx) {
         let desc = || json!({"kind":"fresh-vs-warmed"});
         ctx.case(&desc, fresh_versus_warmed);
     }
+    // (b4) rendering history
+    if ctx.shard == 4 % ctx.nshards {
+        let desc = || json!({"kind":"render-history"});
+        ctx.case(&desc, render_history);
+    }
     // (e) environment access: the library must not consult the process environment
     if ctx.shard == 2 % ctx.nshards {
         environment_access(ctx);
@@ -944,6 +949,60 @@ fn run_c19(ctx: &mut Ctx) {
         ctx.guard("free-running");
     }
     ctx.samples.push(hist_json(&[1, 2, 0], "in-process"));
+}
+
+/// (b4) rendering is a function of the error value: every u16-carrying error rendered for the
+/// numbers 0..=4095 and a spread of larger ones, ascending; then the same renderings again in
+/// descending order and once more ascending — each must equal its first rendering (a name cache
+/// that goes stale after enough other numbers, or that is right only once, differs).
+fn render_history(ctx: &mut Ctx) {
+    use rl2tp::common::DecodeError as E;
+    let numbers: Vec<u16> = (0..=4095u16).chain((4096..=0xffffu32).step_by(251).map(|x| x as u16)).chain([0xfffe, 0xffff]).collect();
+    let make = |x: u16| -> Vec<E> {
+        vec![
+            E::IncompleteAVP(x),
+            E::InvalidUtf8(x),
+            E::AVPReadError(x),
+            E::UnknownAvp(x),
+            E::UnknownMessageType(x),
+            E::InvalidResultCodeErrorType(x),
+            E::InvalidAVPLength(x),
+            E::InvalidOriginalAVPLength(x),
+            E::UnsupportedVendorId(x),
+            E::InvalidOffset(x),
+        ]
+    };
+    let render = |x: u16| -> Option<u64> {
+        let errs = make(x);
+        guarded(move || errs.iter().map(|e| e.to_string()).collect::<Vec<_>>().join("\n")).ok().map(|s| fnv(s.as_bytes(), 4))
+    };
+    let first: Vec<Option<u64>> = numbers.iter().map(|x| render(*x)).collect();
+    let mut n = numbers.len() as u64;
+    for (pass, order) in [("descending", true), ("ascending", false)] {
+        let idx: Vec<usize> = if order { (0..numbers.len()).rev().collect() } else { (0..numbers.len()).collect() };
+        for i in idx {
+            n += 1;
+            let again = render(numbers[i]);
+            if again != first[i] {
+                let x = numbers[i];
+                let now = guarded(|| make(x).iter().map(|e| e.to_string()).collect::<Vec<_>>().join(" | ")).unwrap_or_default();
+                ctx.violation(
+                    "C19 rendering-depends-on-history".into(),
+                    format!("errors carrying {x} render differently in the {pass} pass than when first rendered in this process; now: {}", clip(&now)),
+                    x as usize,
+                    || json!({"kind":"render-history"}),
+                );
+                ctx.executions += n;
+                return;
+            }
+        }
+    }
+    ctx.states += n;
+    ctx.transitions += n;
+    ctx.executions += n;
+    ctx.nontrivial_direct += n;
+    ctx.guard("render-history");
+    ctx.extra.insert("render_history_renderings".into(), json!(n * 10));
 }
 
 /// (b3) representative decode cases: every attribute number x payload lengths around its minimum
@@ -1295,6 +1354,10 @@ fn replay_c19(ctx: &mut Ctx, v: &Value) {
                 }
             }
             let _ = std::fs::remove_file(&inputs);
+        }
+        Some("render-history") => {
+            let desc = || json!({"kind":"render-history"});
+            ctx.case(&desc, render_history);
         }
         Some("fresh-vs-warmed") => {
             // warm this process up with the wire sweep's long history first
